@@ -193,7 +193,7 @@ pub fn run_one(env: &Env, index: u64, stats: &mut Stats) -> (Vec<Found>, u64, u6
             let (vs, out, distinct) = props::check_c16(&c, &seeds);
             record_common(stats, &sc, &c, &out);
             maybe_sample(stats, index, seed, &sc, &c, &out);
-            stats.add("c16.compilations", seeds.len() as u64 + 4 + props::canaries().len() as u64);
+            stats.add("c16.compilations", seeds.len() as u64 + 4 + props::canaries().len() as u64 + if matches!(out.result, ResultObs::Ok) { 3 } else { 0 });
             if distinct > 1 {
                 stats.inc("c16.scenarios_with_divergence");
             }
